@@ -78,6 +78,7 @@ type vH struct {
 	req     []vCall // callback invocations completed during the current request, in order
 	threads map[int]*vThread
 	lu      map[int]int
+	uses    map[int]int // last SET or GET hit of each present key by the harness clock (independent of the stamps)
 	clock   int
 	base    int // goroutines that exist when the harness is idle
 	lineNo  int
@@ -300,6 +301,12 @@ func (h *vH) monitors(op string, now int, before, after map[int]vEnt, calls []vC
 				if _, kept := after[e]; kept && !failed[e] && b.lu < before[k].lu {
 					h.flag("not-lru-first", fmt.Sprintf("%s: entry %d (last use %d) evicted while %d (last use %d) stays", op, k, before[k].lu, e, b.lu))
 				}
+				// the same by the uses the harness has made itself (SET and GET hits), not by the stamps read back
+				ue, oke := h.uses[e]
+				uk, okk := h.uses[k]
+				if _, kept := after[e]; kept && !failed[e] && oke && okk && ue < uk {
+					h.flag("not-lru-first", fmt.Sprintf("%s: entry %d (used at %d) evicted while %d (used at %d) stays", op, k, uk, e, ue))
+				}
 			}
 		}
 	}
@@ -336,6 +343,23 @@ func (h *vH) realTimer(age time.Duration) {
 		n := len(at)
 		mu.Unlock()
 		if n == 2 {
+			break
+		}
+		time.Sleep(age / 4)
+	}
+	// second phase: the cache was emptied by a Delete (which stops the timer); an entry set afterwards expires all the same
+	c.Set(3, 3)
+	_ = c.Delete(3)
+	mu.Lock()
+	delete(at, 3)
+	mu.Unlock()
+	last[4] = time.Now()
+	c.Set(4, 4)
+	for i := 0; i < 400; i++ {
+		mu.Lock()
+		_, ok := at[4]
+		mu.Unlock()
+		if ok {
 			break
 		}
 		time.Sleep(age / 4)
@@ -396,6 +420,7 @@ func (h *vH) apply(line string) string {
 		}
 		h.c = New[int, int](opts)
 		h.lu, h.threads, h.clock = map[int]int{}, map[int]*vThread{}, 0
+		h.uses = map[int]int{}
 		return "new"
 	}
 	if h.c == nil {
@@ -439,18 +464,22 @@ func (h *vH) apply(line string) string {
 	h.mu.Unlock()
 	var err error
 	extra, sorted, op := "", false, t[0]
+	getHit := -1
 	printCalls := func() []vCall { return h.req }
 	switch t[0] {
 	case "SET":
 		k, v := vAtoi(t[1]), vAtoi(t[2])
 		h.c.Set(k, v)
 		before[k] = vEnt{v, now}
+		h.uses[k] = now
 	case "GET":
 		v, e := h.c.Get(vAtoi(t[1]))
 		if e != nil {
 			extra = " got=none"
 		} else {
 			extra = fmt.Sprintf(" got=%d", v)
+			h.uses[vAtoi(t[1])] = now
+			getHit = vAtoi(t[1])
 		}
 	case "DEL":
 		err = h.c.Delete(vAtoi(t[1]))
@@ -538,6 +567,22 @@ func (h *vH) apply(line string) string {
 	calls := append([]vCall{}, h.req...)
 	h.mu.Unlock()
 	h.monitors(op, now, before, after, calls)
+	if a, ok := after[getHit]; ok && a.lu != now {
+		h.flag("use-not-recorded", fmt.Sprintf("GET of entry %d at %d leaves its last use at %d", getHit, now, a.lu))
+	}
+	for k := range h.uses {
+		if _, ok := after[k]; !ok {
+			delete(h.uses, k)
+		}
+	}
+	// a cleanup that failed during a prune postpones the entry: the cache counts that as a use
+	if op == "SET" || op == "COUNT" || op == "AGE" {
+		for _, c := range calls {
+			if _, ok := after[c.k]; ok && c.fail {
+				h.uses[c.k] = now
+			}
+		}
+	}
 	for k := range h.lu {
 		delete(h.lu, k)
 	}
